@@ -190,6 +190,41 @@ class C19(Prop):
                 if rng.random() < 0.2:
                     steps.append({"t": "advance", "dt": rng.choice([2, 70])})
                 corpus()
+        if not err_first and hist[-1] is not None:
+            cur = hist[-1]
+            vn = {i: "%s:%s" % (ip(i) if use_vpc else fqdn(i), port(i)) for i in cur}
+            r = rng.random()
+            if r < 0.12:
+                # two callers: the first is still waiting for the endpoint's answer when a second one asks for a
+                # reconfiguration of its own and then reads - the second's reads follow the list advertised to it
+                new = sorted(rng.sample(range(MAXN), rng.randint(1, 6)))
+                if set(new) != set(cur):
+                    version += 1
+                    steps.append({"t": "cluster", "node": 0, "cluster": self.cluster(version, new)})
+                    calls = [{"m": "reconfigure_nodes", "a": [], "k": {}}]
+                    calls += [{"m": "get", "a": [E(k)], "k": {}} for k in rng.sample(keys, min(3, len(keys)))]
+                    steps.append({"t": "call", "m": "reconfigure_nodes", "a": [], "k": {}, "tag": "reconf", "adv": new,
+                                  "net": {"seg": [rng.choice([7, 20, 33]), 0]},
+                                  "faults": [{"at": ["recv", rng.choice([0, 1])], "kind": "yield", "calls": calls}]})
+                    hist.append(new)
+                    corpus()
+            elif r < 0.24 and len(cur) >= 2:
+                # two callers on one pooled node: the second finishes and leaves its connection idle in the pool,
+                # then the first one's connection is reset (the node is now in its retry window with an idle
+                # connection still pooled); the node is then scaled away
+                ck["use_pooling"] = True
+                victim = rng.choice(cur)
+                owned = [k for k in keys if refhash.owner(list(vn.values()), k) == vn[victim]]
+                if owned:
+                    steps.append({"t": "call", "m": "get", "a": [E(rng.choice(owned))], "k": {}, "tag": "faulted",
+                                  "faults": [{"at": ["recv", 0], "kind": "yield", "then": {"kind": "reset"},
+                                              "calls": [{"m": "get", "a": [E(rng.choice(owned))], "k": {}}]}]})
+                    new = [i for i in cur if i != victim]
+                    version += 1
+                    steps.append({"t": "cluster", "node": 0, "cluster": self.cluster(version, new)})
+                    steps.append({"t": "call", "m": "reconfigure_nodes", "a": [], "k": {}, "tag": "reconf", "adv": new})
+                    hist.append(new)
+                    corpus()
         return [{"property": self.id, "world": w, "steps": steps, "first": None if err_first else first}]
 
     def advertised_before(self, scn, step):
@@ -224,6 +259,36 @@ class C19(Prop):
                 out.append(viol("socket-to-unadvertised-node-left-open", rec,
                                 disc="endpoint" if any(t == 0 for _, t in bad) else "cache-node", socks=bad[:4]))
 
+        def routed(rec, args, names, disc=None):
+            n0 = len(out)
+            a0 = args[0]
+            ks = list(a0.keys()) if isinstance(a0, dict) else (list(a0) if isinstance(a0, list) else [a0])
+            want = {}
+            for k in ks:
+                wk = prefix + (k.encode() if isinstance(k, str) else k)
+                want[wk] = names[refhash.owner(list(names), k)]
+            for c in rec.commands:
+                if c[2] is None:
+                    continue
+                if c[0] not in names.values():
+                    out.append(viol("command-reached-unadvertised-node", rec, node=c[0], advertised=sorted(names.values())))
+                elif want.get(c[2]) != c[0]:
+                    out.append(viol("command-not-at-owner-over-advertised-list", rec, key=repr(c[2]), node=c[0],
+                                    owner=want.get(c[2])))
+            got_keys = {c[2] for c in rec.commands}
+            if set(want) - got_keys:
+                out.append(viol("key-not-routed", rec, missing=[repr(x) for x in sorted(set(want) - got_keys)][:4]))
+            # reached by ip or by fqdn as use_vpc says
+            for ev in w.events[rec.ev0:rec.ev1]:
+                if ev[4] == "getaddrinfo":
+                    host = ev[5][0]
+                    is_ip = host[0].isdigit()
+                    if is_ip != bool(use_vpc):
+                        out.append(viol("wrong-address-kind-for-use_vpc", rec, host=host, use_vpc=use_vpc))
+            if disc is not None:
+                for v_ in out[n0:]:
+                    v_["disc"] = disc
+
         adv = self.advertised_before(scn, 0)
         if adv is None:
             if init.outcome != "raise" or not isinstance(init.exc, MUCE):
@@ -240,8 +305,8 @@ class C19(Prop):
                 continue
             st = scn["steps"][rec.step]
             tag = st.get("tag")
-            if tag == "preamble":
-                continue
+            if tag in ("preamble", "faulted"):
+                continue      # (faulted: a fault was injected into this very call: its own outcome is not the subject)
             if tag in ("reconf", "reconf-error"):
                 tag = "reconf" if self.advertised_before(scn, rec.step) is not None else "reconf-error"
             if tag == "reconf-error":
@@ -284,31 +349,30 @@ class C19(Prop):
                                 msg=engine._exc_text(rec.exc)[:100], advertised=sorted(names)))
                 continue
             args, kwargs = res.extra["args"][rec.step]
-            a0 = args[0]
-            ks = list(a0.keys()) if isinstance(a0, dict) else (list(a0) if isinstance(a0, list) else [a0])
-            want = {}
-            for k in ks:
-                wk = prefix + (k.encode() if isinstance(k, str) else k)
-                want[wk] = names[refhash.owner(list(names), k)]
-            for c in rec.commands:
-                if c[2] is None:
-                    continue
-                if c[0] not in names.values():
-                    out.append(viol("command-reached-unadvertised-node", rec, node=c[0], advertised=sorted(names.values())))
-                elif want.get(c[2]) != c[0]:
-                    out.append(viol("command-not-at-owner-over-advertised-list", rec, key=repr(c[2]), node=c[0],
-                                    owner=want.get(c[2])))
-            got_keys = {c[2] for c in rec.commands}
-            if set(want) - got_keys:
-                out.append(viol("key-not-routed", rec, missing=[repr(x) for x in sorted(set(want) - got_keys)][:4]))
-            # reached by ip or by fqdn as use_vpc says
-            for ev in w.events[rec.ev0:rec.ev1]:
-                if ev[4] == "getaddrinfo":
-                    host = ev[5][0]
-                    is_ip = host[0].isdigit()
-                    if is_ip != bool(use_vpc):
-                        out.append(viol("wrong-address-kind-for-use_vpc", rec, host=host, use_vpc=use_vpc))
+            routed(rec, args, names)
             check_sockets(rec, adv)
+        # calls made by a second caller while the first was parked inside a socket call (yield faults): after the
+        # second caller's own reconfigure_nodes() returned, its reads follow the list advertised at that moment
+        pending = []
+        for rec in res.calls:
+            if rec.step == -2:
+                pending.append(rec)
+                continue
+            if rec.step < 0 or not pending:
+                continue
+            adv_n = self.advertised_before(scn, rec.step)
+            mine, pending = pending, []
+            if adv_n is None or not any(r_.method == "reconfigure_nodes" and r_.outcome == "return" for r_ in mine):
+                continue
+            n1 = len(out)
+            for r_ in mine:
+                if r_.method == "get" and r_.outcome == "return":
+                    routed(r_, r_.extra["nested_args"][0], names_of(adv_n), disc="second-caller")
+                elif r_.outcome == "raise":
+                    out.append(viol("routed-call-raised", r_, disc="second-caller." + type(r_.exc).__name__,
+                                    exc=type(r_.exc).__name__, msg=engine._exc_text(r_.exc)[:100]))
+            for v_ in out[n1:]:
+                v_["step"] = rec.step        # reported at the step of the parked caller
         out.extend(v for v in ownership_violations(res))
         out.sort(key=lambda v: (v["step"] if v["step"] is not None else -1))
         return out
